@@ -22,7 +22,7 @@ LEVEL = "exploration"
 
 ATOMS = ["x", "y z", "p [[ q", "p ]] q", "[[a]]", "{{PAGENAME:}}", "{{PAGENAME}}", "{{#if:|}}", "{{t|}}", "{{t||x}}", "{{lc:}}"]
 # further atoms: used bare and under one wrapper only (they do not multiply through the depth-2 products)
-EXTRA_ATOMS = ["r [1][2] s", "e [] f", "-3", "+1", "}x"]   # the last three: cell texts that begin like a table marker
+EXTRA_ATOMS = ["r [1][2] s", "e [] f", 'p<br clear="all">q', '<span id="e"></span>', '<ref name="n" />', "-3", "+1", "}x"]   # void / empty elements with attributes; the last three: cell texts that begin like a table marker
 WRAPS = ["'''%s'''", "''%s''", "[[a|%s]]", "{{t|%s}}", "{{t|k=%s}}", "{{#if:x|%s|z}}", '<span class="c">%s</span>',
          "<b>%s</b>", "[http://x.y %s]", "{{{p|%s}}}"]
 BLOCKS = [
@@ -41,10 +41,12 @@ SELF_STANDING = set(LEVELK) | {K.LIST, K.TABLE, K.BOLD, K.ITALIC, K.LINK, K.TEMP
                                K.TEMPLATE_ARG, K.URL}
 
 
-def inlines(depth, top=True):
+def inlines(depth, top=True, wrapped_extra=True):
     out = list(ATOMS)
     if top:
-        out += EXTRA_ATOMS + [w % e for w in WRAPS for e in EXTRA_ATOMS if not w.startswith(("[[a|", "[http"))]
+        out += EXTRA_ATOMS
+        if wrapped_extra:
+            out += [w % e for w in WRAPS for e in EXTRA_ATOMS if not w.startswith(("[[a|", "[http"))]
     if depth > 0:
         for w in WRAPS:
             for i in inlines(depth - 1, False):
@@ -289,6 +291,7 @@ def replay(case):
 def gen_docs(tier):
     q = tier == "quick"
     i1, i2 = inlines(1), inlines(2)
+    i1_plain = inlines(1, True, False)
     docs = []
     singles1 = []   # single blocks with depth-1 inlines (all slots independent up to 2 slots)
     for b in BLOCKS:
@@ -303,7 +306,8 @@ def gen_docs(tier):
                 if not b.startswith("{|\n|+ "):
                     singles1.append(b % x)
         elif k == 2:
-            second = TIGHT_SECOND if (q and b in TIGHT_BLOCKS) else i1
+            # quick: the second slot does without the wrapped forms of the extra atoms (the first slot has them)
+            second = TIGHT_SECOND if (q and b in TIGHT_BLOCKS) else (i1_plain if q else i1)
             for x, y in itertools.product(i1, second):
                 docs.append(b % (x, y))
             for x in i1:
